@@ -34,6 +34,10 @@ fn suffixes(b: &[u8], long: bool) -> Vec<Vec<u8>> {
     v
 }
 
+/// struct sweeps: rejected inputs of <= 48 bytes also get the 70000-byte suffix (a length that lies by 2^16 is
+/// then satisfiable); off during the string sweeps (millions of inputs)
+static LONG_ON_REJECT: std::sync::atomic::AtomicBool = std::sync::atomic::AtomicBool::new(true);
+
 /// L1 / L2 on one (parser, input); `g` = f(b)
 fn locality(t: &Target, b: &[u8], g: &Got, _r: &Ref, sink: &mut Sink) {
     let mut found: Vec<String> = Vec::new();
@@ -65,7 +69,7 @@ fn locality(t: &Target, b: &[u8], g: &Got, _r: &Ref, sink: &mut Sink) {
         }
         Got::Error(_) | Got::Failure(_) => {
             let mut buf: Vec<u8> = Vec::with_capacity(b.len() * 2 + 16);
-            for x in suffixes(b, false) {
+            for x in suffixes(b, LONG_ON_REJECT.load(std::sync::atomic::Ordering::Relaxed) && b.len() <= 48) {
                 buf.clear();
                 buf.extend_from_slice(b);
                 buf.extend_from_slice(&x);
@@ -111,6 +115,7 @@ fn main() {
         }));
     }
     let thorough = run.tier == Tier::Thorough;
+    vcommon::en::WRAP_LIES.store(true, std::sync::atomic::Ordering::Relaxed);
     let d = run.tier.pick(1, 2);
     let sfx = std_suffixes();
     let mut sink = Sink::new();
@@ -191,6 +196,7 @@ fn main() {
         sink.merge(struct_sweep(&run, &[&SCT], &wrapped(&cat::scts(false), 1), 0, &sfx, 8, &locality));
         sink.merge(struct_sweep(&run, &[&SCT_LIST], &wrapped(&cat::sct_lists(false), 1), 0, &sfx, 8, &locality));
     }
+    LONG_ON_REJECT.store(false, std::sync::atomic::Ordering::Relaxed);
     // every short string over per-family positional alphabets (nested lengths that point past the structure)
     let n = run.tier.pick(7, 8);
     let rec_alpha = Alpha::new(&[&[0x14, 0x15, 0x16, 0x17, 0x18, 0xff], &[0x03], &[0x03], &[0x00, 0x41], &[0x00, 0x01, 0x02, 0x03, 0x04, 0x06]], &[0x00, 0x01, 0x02, 0x03, 0x0e, 0xff]);
